@@ -178,7 +178,8 @@ def run(rep, tier, seed, replay=None):
             if not got.startswith("ERR ") or got in ("ERR PacketReceive", "ERR PacketSend"):
                 out.append((f"retry-malformed:{b.fam}", f"unit {unit}, r={r}, vector {v}: expected a non-timeout error, got {got[:200]}"))
         elif got != want_res:
-            out.append((f"retry-exhausted:{b.fam}", f"unit {unit}, r={r}, vector {v}: expected {want_res}, got {got[:200]}"))
+            sig = getattr(fmod, "c10_known", lambda *a: None)(unit, want_res, got) or f"retry-exhausted:{b.fam}"
+            out.append((sig, f"unit {unit}, r={r}, vector {v}: expected {want_res}, got {got[:200]}"))
         return out
 
     vlib.correspond(rep, netprops.corpus("C10") + cases, oracle=oracle, trivial=netprops.trivial, tag="c10")
